@@ -28,7 +28,7 @@ fn pool() -> Vec<(&'static str, &'static str)> {
         ("nil", "nil"), ("true", "true"), ("false", "false"), ("zero", "0"), ("neg_zero", "-0"), ("one", "1"), ("minus_one", "-1"), ("frac", "1.5"),
         ("two53", "9007199254740992"), ("two63", "9223372036854775808"), ("minus_two63", "-9223372036854775808"), ("huge", "huge"), ("inf", "1 / 0"), ("neg_inf", "-1 / 0"),
         ("nan", "0 / 0"), ("empty_str", "\"\""), ("multibyte_str", "\"a\u{e9}\u{20ac}\u{1f600}\""), ("empty_vec", "[]"), ("vec", "[1, \"a\", nil]"), ("self_vec", "selfvec"),
-        ("byte_vec", "[104, 195, 169]"), ("tuple", "(1, 2)"), ("empty_tuple", "()"), ("map", "{1: 2}"), ("range_up", "0..3"), ("range_down", "3..-2"), ("range_empty", "2..2"),
+        ("byte_vec", "[104, 195, 169]"), ("tuple", "(1, 2)"), ("tuple_with_vec", "(1, [2])"), ("tuple_with_map", "((1, {}), 2)"), ("empty_tuple", "()"), ("map", "{1: 2}"), ("range_up", "0..3"), ("range_down", "3..-2"), ("range_empty", "2..2"),
         ("lambda0", "(|| 1)"), ("lambda1", "(|a| a)"), ("lambda2", "(|a, b| a)"), ("class", "K"), ("builtin_class", "Vec"), ("instance", "inst"), ("bound_method", "inst.m"),
         ("bound_native", "[1].len"), ("native", "print"), ("fiber_new", "fresh_fiber"), ("fiber_suspended", "suspended"), ("fiber_finished", "finished"), ("iter_fresh", "[1, 2].iter()"),
         ("iter_spent", "spent_iter"), ("stop_iter", "StopIter.new()"), ("error", "Error.new(1)"),
@@ -124,12 +124,19 @@ fn cases(thorough: bool) -> Vec<Case> {
                         if !thorough && *a == 2 && derived && ti % 3 != 0 {
                             continue;
                         }
-                        let args: Vec<&str> = t.iter().map(|i| p[*i].1).collect();
-                        let stmt = format!("{}var r = {}.{}({});", setup, recv_expr, m, args.join(", "));
+                        // receiver and arguments are bound once and the identical call is made twice on the
+                        // same objects: a failed call must leave them untouched, so it fails the same way again
+                        let binds: String = t.iter().enumerate().map(|(k, i)| format!("var a{} = {};\n", k, p[*i].1)).collect();
+                        let names: Vec<String> = (0..t.len()).map(|k| format!("a{}", k)).collect();
+                        let call = format!("recv.{}({})", m, names.join(", "));
+                        let src = format!(
+                            "{}\n{}{}var recv = nil;\ntry {{ recv = {}; }} catch e {{ print(\"receiver construction failed\"); }}\nvar before = String.from([{}]);\ntry {{\n  var r = {};\n  print(\"completed\");\n}} catch e {{\n  print(\"caught\");\n  print(type(e));\n}}\nprint(String.from([{}]) == before);\ntry {{\n  var r = {};\n  print(\"completed\");\n}} catch e {{\n  print(\"caught\");\n  print(type(e));\n}}\nprint(\"end\");\n",
+                            PRELUDE, setup.replace("\n  ", "\n"), binds, recv_expr, names.join(", "), call, names.join(", "), call
+                        );
                         out.push(Case {
                             family: "native_sweep",
                             cell: format!("{}.{}/{} {}", class, m, a, t.iter().map(|i| p[*i].0).collect::<Vec<_>>().join(",")),
-                            source: wrap(&stmt),
+                            source: src,
                             derived_receiver: derived,
                             raw: false,
                         });
@@ -298,6 +305,9 @@ pub fn run(ctx: &Ctx) -> Report {
                 Obs::Resp(r) => match r.results.get(0) {
                     Some(res) => match &res.outcome {
                         proto::Outcome::Panic { msg } => (Some(format!("interpreter panicked: {}", msg)), "PANIC".to_string()),
+                        proto::Outcome::Ok if c.family == "native_sweep" && res.out.first().map(|l| l == "caught").unwrap_or(false) && !(res.out.len() >= 5 && res.out[2] == "true" && res.out[3] == "caught" && res.out[4] == res.out[1]) => {
+                            (Some(format!("a failed built-in call is not repeatable on the same objects (first attempt, arguments unchanged?, second attempt): {:?}", res.out)), "not repeatable".into())
+                        }
                         proto::Outcome::Ok => {
                             // a caught failure must be an error instance or a thrown value of the program
                             let caught = res.out.iter().position(|l| l == "caught");
